@@ -23,6 +23,7 @@ RULE = (
     "distinct = distinct (configuration, crash points)."
     ' A quarter of the configurations carry pass-through options on the command line (--excludes in both spellings, unrelated options).'
     ' Interruption styles: kill, KeyboardInterrupt, failing pipeline command, pipeline command killed by a signal (negative return code).'
+    ' Prospective configurations may start from screens with nothing (or less than a batch) left to select.'
 )
 ASSUMPTIONS = [
     "nextflow itself is not run: its observable contract (files under --outdir/<name>/, published atomically in an order consistent with the process DAG of the .nf sources) is simulated",
@@ -49,6 +50,9 @@ CONFIGS_QUICK = [
     {"mode": "prospective", "batch": 2, "plates": 4, "n_chains": 1, "n_chunks": 1, "order_salt": "b", "metadata_position": "first", "invocations": 2},
     {"mode": "prospective", "batch": 3, "plates": 5, "n_chains": 2, "n_chunks": 1, "order_salt": "d", "metadata_position": None, "invocations": 1},
     {"mode": "retrospective", "batch": 2, "plates": 4, "n_chains": 1, "n_chunks": 1, "order_salt": "e", "metadata_position": None, "relative_outdir": True},
+    # prospective runs on screens with nothing (or less than a batch) left to select
+    {"mode": "prospective", "batch": 2, "plates": 3, "n_chains": 1, "n_chunks": 1, "order_salt": "a", "metadata_position": "last", "invocations": 2, "observed": 3},
+    {"mode": "prospective", "batch": 3, "plates": 4, "n_chains": 1, "n_chunks": 1, "order_salt": "b", "metadata_position": None, "invocations": 2, "observed": 3},
     # options the script does not know and hands through to every pipeline launch (among them one it also sets itself)
     {"mode": "retrospective", "batch": 3, "plates": 6, "n_chains": 1, "n_chunks": 1, "order_salt": "a", "metadata_position": None, "user_args": ["--excludes", "2"]},
     {"mode": "prospective", "batch": 3, "plates": 6, "n_chains": 1, "n_chunks": 1, "order_salt": "c", "metadata_position": "last", "invocations": 2, "user_args": ["--excludes=1,4", "--max_cpus", "3"]},
@@ -131,6 +135,8 @@ def _case(draw):
     }
     if mode == "prospective":
         cfg["invocations"] = draw(st.integers(1, 3))
+        if draw(st.integers(0, 2)) == 0:
+            cfg["observed"] = draw(st.integers(1, plates))
     if draw(st.integers(0, 3)) == 0:
         cfg["relative_outdir"] = True  # --outdir relative to the directory the script is started in (not the repository root)
     if draw(st.integers(0, 3)) == 0:
@@ -168,7 +174,9 @@ def run_scenario(cfg, crashes, style="kill"):
     os.makedirs(os.path.join(root, "input"))
     run = osim.Run(root, cfg, crashes, style=style)
     with open(run.input_screen, "w") as f:
-        json.dump({"plates": {str(i): "u" for i in range(cfg["plates"])}, "lineage": "input"}, f, sort_keys=True)
+        # (prospective runs may start from a screen on which some - or all - plates are observed already: nothing, or less than a
+        # batch, is then left to select)
+        json.dump({"plates": {str(i): ("o" if cfg["mode"] == "prospective" and i < cfg.get("observed", 0) else "u") for i in range(cfg["plates"])}, "lineage": "input"}, f, sort_keys=True)
     pipeline, os_proxy, sh_proxy = osim.Pipeline(run), osim.OsProxy(run), osim.ShProxy(run)
 
     def new_process():
